@@ -15,7 +15,7 @@ RULE = (
     "case = a program: a random interleaving of operations over 2-4 objects of the same or related classes - "
     "registers of two classes that share ONE Line object or one Field object, and of a class deriving from one of them with a layout of its own (construct, read a line, write, mutate "
     "own data, mutate the list a read returned), register files (construct without arguments, read content, append / "
-    "remove elements, MOVE an element from one file to another (remove there, append here), write), block and section files constructed without arguments. After each of its own "
+    "remove elements, MOVE an element from one file to another (remove there, append here), write), block and section files constructed without arguments. An element may also be TAKEN OUT of a file and kept by the caller while that file goes on with operations of its own, and be PUT INTO a file of the same family later (append, preppend, add_after the first, add_before the last element; registers, default blocks and default sections; the same element may travel several times): the file it left is not changed by where the element goes afterwards. After each of its own "
     "operations every object's observables are recorded (register data and written text; file length, element data, "
     "written output). The same operations of EACH object alone are then replayed on fresh objects; the two "
     "observation sequences must be identical for every object (Driver C14 handler), and: files constructed without "
@@ -96,6 +96,17 @@ def obs_file(f, binary=False):
     return {"elems": elems, "written": w}
 
 
+def make_element(env, step):
+    """a fresh element with the data the step names (a register of one of the classes, or a default element)"""
+    if step.get("cls") in ("RA", "RB", "RC", "RD", "RE", "RG"):
+        return env[step["cls"]](data=[codec.dec_val(v) for v in step["data"]])
+    from cfinterface.components.defaultblock import DefaultBlock
+    from cfinterface.components.defaultregister import DefaultRegister
+    from cfinterface.components.defaultsection import DefaultSection
+
+    return {"RF": DefaultRegister, "BF": DefaultBlock, "SF": DefaultSection}[step["fcls"]](data=step["text"])
+
+
 def apply(env, objs, step):
     """executes one step; returns the observation of the object the step belongs to"""
     oid, op = step["obj"], step["op"]
@@ -133,7 +144,38 @@ def apply(env, objs, step):
             from cfinterface.components.defaultsection import DefaultSection
 
             el = {"RF": DefaultRegister, "BF": DefaultBlock, "SF": DefaultSection}[step["fcls"]](data=step["text"])
+            if "tag" in step:
+                objs.setdefault("__tags__", {})[step["tag"]] = el
         f.data.append(el)
+    elif op == "file_take_out":
+        # an operation of THIS file: the element added to it earlier under the tag is removed and the caller
+        # keeps it (it is in no container until a later file_put_in)
+        kind, f = objs[oid]
+        el = objs.setdefault("__tags__", {}).get(step["tag"])
+        if el is not None and len(f.data) > 1 and any(m is el for m in fsup.capped(f.data, 500)):
+            f.data.remove(el)
+            objs.setdefault("__out__", set()).add(step["tag"])
+    elif op == "file_put_in":
+        # an operation of THIS file: the element the caller holds (taken out of some file earlier) is added
+        # here; where the element is not at hand (the isolated replay of this file alone, or a program in
+        # which it was never taken out) an equal fresh element is added instead
+        kind, f = objs[oid]
+        tags = objs.setdefault("__tags__", {})
+        out = objs.setdefault("__out__", set())
+        el = tags.get(step["tag"]) if step["tag"] in out else None
+        if el is None:
+            el = make_element(env, step)
+        out.discard(step["tag"])
+        tags[step["tag"]] = el
+        how = step.get("how", "append")
+        if how == "append":
+            f.data.append(el)
+        elif how == "preppend":
+            f.data.preppend(el)
+        elif how == "after_first":
+            f.data.add_after(f.data.first, el)
+        else:
+            f.data.add_before(f.data.last, el)
     elif op == "file_move_in":
         # an element (appended earlier to file `src` with tag t) is moved to this file:
         # src.data.remove(el); this.data.append(el).  In the isolated replay of this file alone the
@@ -146,13 +188,13 @@ def apply(env, objs, step):
             if el is not None and len(src.data) > 1:
                 src.data.remove(el)
             return None
-        kind, f = objs[oid]
         if mode == "dst_only" or el is None:
             el = env[step["cls"]](data=[codec.dec_val(v) for v in step["data"]])
         else:
             src = objs[step["src"]][1]
             if len(src.data) > 1:
                 src.data.remove(el)
+        kind, f = objs[oid]  # (a program whose destination was never created: the source still loses the element)
         f.data.append(el)
     elif op == "loose_element":
         # an element constructed with the optional previous= / next= arguments naming a member of
@@ -207,7 +249,7 @@ def run_program(steps, only=None):
         out.setdefault(st["obj"], []).append(o)
     # final observation of every object (after everybody's operations)
     for oid, val in objs.items():
-        if oid == "__tags__":
+        if oid in ("__tags__", "__out__"):
             continue
         kind, o = val
         if only is None or oid == only:
@@ -459,6 +501,7 @@ def random_case(rng):
         kinds.append(k)
     created = set()
     tagged = []
+    held = []  # elements taken out of a file and not yet put into another one
     for _ in range(rng.randrange(4, 22)):
         oid = rng.randrange(nobj)
         k = kinds[oid]
@@ -490,8 +533,24 @@ def random_case(rng):
         else:
             fcls = k.split(":")[1]
             r = rng.random()
-            movable = [t for t in tagged if t["obj"] != oid and kinds[t["obj"]] == "file:RF"]
-            if fcls == "RF" and movable and rng.random() < 0.25:
+            movable = [t for t in tagged if t["obj"] != oid and kinds[t["obj"]] == "file:RF" and "data" in t]
+            mine = [t for t in tagged if t["obj"] == oid]
+            fitting = [h for h in held if h["fam"] == fcls]
+            if fitting and rng.random() < 0.3:
+                # an element somebody took out of a file earlier is put into this one
+                h = rng.choice(fitting)
+                held.remove(h)
+                st = {k: v for k, v in h.items() if k not in ("fam", "from")}
+                st.update({"obj": oid, "op": "file_put_in", "how": rng.choice(["append", "append", "preppend", "after_first", "before_last"])})
+                steps.append(st)
+                tagged.append({**h, "obj": oid})
+            elif mine and rng.random() < 0.25:
+                # an element of this file is taken out and kept by the caller
+                t = rng.choice(mine)
+                tagged.remove(t)
+                steps.append({"obj": oid, "op": "file_take_out", "tag": t["tag"]})
+                held.append({**{k: v for k, v in t.items() if k in ("tag", "cls", "data", "fcls", "text")}, "fam": fcls})
+            elif fcls == "RF" and movable and rng.random() < 0.25:
                 t = rng.choice(movable)
                 tagged.remove(t)
                 steps.append({"obj": oid, "op": "file_move_in", "src": t["obj"], "tag": t["tag"], "cls": t["cls"], "data": t["data"]})
@@ -502,7 +561,9 @@ def random_case(rng):
                     steps.append(st)
                     tagged.append(st)
                 else:
-                    steps.append({"obj": oid, "op": "file_append", "cls": "dflt", "fcls": fcls, "text": rng.choice(["free\n", "x\n"])})
+                    st = {"obj": oid, "op": "file_append", "cls": "dflt", "fcls": fcls, "text": rng.choice(["free\n", "x\n"]), "tag": len(steps)}
+                    steps.append(st)
+                    tagged.append(st)
             elif r < 0.6:
                 steps.append({"obj": oid, "op": "file_remove_last"})
                 tagged[:] = [t for t in tagged if t["obj"] != oid]  # the last element may have been a tagged one
